@@ -17,6 +17,9 @@ def model_type(em, name, nn):
     if nn.startswith('map<basic_string<char>,void*') or nn.startswith('map<string,void*'):
         em.lowerings['M-map(type)'] += 1
         return 'struct M_map_str_voidp'
+    if re.match(r'^__normal_iterator<void\*(const)?\*,vector<void\*', nn) or re.match(r'^vector<void\*(,.*)?>::(const_)?iterator$', nn):
+        em.lowerings['M-vec(iterator type)'] += 1
+        return 'struct M_vecit_voidp'
     m = re.match(r'^atomic<(.*)>$', nn)
     if m:
         inner_t = em._split_targs(name)[0]
@@ -170,6 +173,25 @@ def _is_mapit(em, e):
     return t[0] == 'n' and (norm_name(t[1]).startswith('_Rb_tree_iterator<pair<') or norm_name(t[1]).startswith('_Rb_tree_const_iterator<pair<') or re.match(r'^map<.*>::iterator$', norm_name(t[1])) is not None)
 
 
+def _is_vec(em, e):
+    try:
+        t = T.strip_quals(T.strip_ref(T.parse(qt(e))))
+    except T.TypeParseError:
+        return False
+    return t[0] == 'n' and re.match(r'^vector<void\*', norm_name(t[1])) is not None
+
+
+def _is_vecit(em, e):
+    try:
+        t = T.strip_quals(T.strip_ref(T.parse(qt(e))))
+    except T.TypeParseError:
+        return False
+    if t[0] != 'n':
+        return False
+    nn = norm_name(t[1])
+    return nn.startswith('__normal_iterator<void*') or re.match(r'^vector<void\*(,.*)?>::(const_)?iterator$', nn) is not None
+
+
 def _is_std_array(em, e):
     try:
         t = T.strip_quals(T.strip_ref(T.parse(qt(e))))
@@ -184,6 +206,19 @@ def operator_call(em, n, rd, args):
         if st is not None:
             em.lowerings['M-callable(parameter %s -> contract stub)' % st] += 1
             return '%s(%s)' % (st, ', '.join(em.E(a) for a in args[1:]))
+    if rd.get('name') in ('operator==', 'operator!=') and len(args) == 2 and _is_vecit(em, args[0]) and _is_vecit(em, args[1]):
+        em.lowerings['M-vec(iterator compare)'] += 1
+        return '((%s).idx %s (%s).idx)' % (em.E(args[0]), rd['name'][8:], em.E(args[1]))
+    if rd.get('name') == 'operator*' and len(args) == 1 and _is_vecit(em, args[0]):
+        em.lowerings['M-vec(iterator deref)'] += 1
+        a_ = em.E(args[0])
+        return '((%s).v->elem[(%s).idx])' % (a_, a_)
+    if rd.get('name') == 'operator++' and len(args) >= 1 and _is_vecit(em, args[0]):
+        em.lowerings['M-vec(iterator ++)'] += 1
+        return '((%s).idx++)' % em.E(args[0])
+    if rd.get('name') == 'operator[]' and len(args) == 2 and _is_vec(em, args[0]):
+        em.lowerings['M-vec(operator[])'] += 1
+        return '((%s).elem[%s])' % (em.E(args[0]), em.E(args[1]))
     if rd.get('name') == 'operator[]' and len(args) == 2 and _is_map(em, args[0]):
         m_, k_ = em.E(args[0]), em.E(args[1])
         em.lowerings['M-map(operator[])'] += 1
@@ -224,6 +259,34 @@ def member_call(em, n, callee, obj, args, rd):
             e = em.E(args[0])
             return '((%s == %s) ? (%s = %s, (_Bool)1) : (%s = %s, (_Bool)0))' % (o, e, o, em.E(args[1]), e, o)
         raise ExtractError('unmodelled atomic member ' + str(nm))
+    if _is_vec(em, obj):
+        em.lowerings['M-vec(%s)' % nm] += 1
+        if nm == 'begin' and not args:
+            return '((struct M_vecit_voidp){ &(%s), 0UL })' % o
+        if nm == 'end' and not args:
+            return '((struct M_vecit_voidp){ &(%s), (%s).len })' % (o, o)
+        if nm == 'push_back' and len(args) == 1:
+            return '((%s).elem[(%s).len] = %s, (%s).len = (%s).len + 1UL, (void)0)' % (o, o, em.E(args[0]), o, o)
+        if nm == 'pop_back' and not args:
+            return '((%s).len = (%s).len - 1UL, (void)0)' % (o, o)
+        if nm == 'back' and not args:
+            return '((%s).elem[(%s).len - 1UL])' % (o, o)
+        if nm == 'front' and not args:
+            return '((%s).elem[0])' % o
+        if nm == 'size' and not args:
+            return '((%s).len)' % o
+        if nm == 'empty' and not args:
+            return '((_Bool)((%s).len == 0UL))' % o
+        if nm == 'clear' and not args:
+            return '((%s).len = 0UL, (void)0)' % o
+        if nm == 'erase' and len(args) == 1:
+            a_ = em.E(args[0])
+            em.extern_funcs['vec_erase_range'] = True
+            return 'vec_erase_range(&(%s), (%s).idx, (%s).idx + 1UL)' % (o, a_, a_)
+        if nm == 'erase' and len(args) == 2:
+            em.extern_funcs['vec_erase_range'] = True
+            return 'vec_erase_range(&(%s), (%s).idx, (%s).idx)' % (o, em.E(args[0]), em.E(args[1]))
+        raise ExtractError('unmodelled std::vector member ' + str(nm))
     mcn = _is_map(em, obj)
     if mcn and 'opaque' in (em.struct_defs.get(mcn) or ''):
         raise ExtractError('operation %s on an opaque (wide-key) map model' % nm)
@@ -327,6 +390,8 @@ def member_expr(em, n, base, d):
 def construct(em, n, ii, rec):
     """iterator -> const_iterator conversions of modelled containers are the identity"""
     if rec is None and len(ii) == 1 and _is_mapit(em, n) and _is_mapit(em, ii[0]):
+        return em.E(ii[0])
+    if rec is None and len(ii) == 1 and _is_vecit(em, n) and _is_vecit(em, ii[0]):
         return em.E(ii[0])
     hook = em.opts.get('construct_extra')
     if hook:
